@@ -57,12 +57,26 @@ class FiniteModel:
     """k support points on the line; symbolic log-likelihood, log-prior and
     log-proposal-probability at each."""
 
-    def __init__(self, ctx, k):
+    def __init__(self, ctx, k, uniform_q=False, flat_prior=False):
+        import math
+
         self.k = k
         self.pts = [float(j) for j in range(k)]
         self.ll = [z3.Real(f"ll_{j}") for j in range(k)]
-        self.lp = [z3.Real(f"lp_{j}") for j in range(k)]
-        self.lq = [z3.Real(f"lq_{j}") for j in range(k)]
+        # optional concretisations keep the polynomial identity of the heavier
+        # configurations small: a flat prior on the support, a uniform proposal
+        self.lp = [core.rv(0) for j in range(k)] if flat_prior else [z3.Real(f"lp_{j}") for j in range(k)]
+        self.lq = [core.rv(-math.log(k)) for j in range(k)] if uniform_q else [z3.Real(f"lq_{j}") for j in range(k)]
+        self.uniform_q = uniform_q
+        self.param_q = False
+        if uniform_q == "param":
+            # normalised by construction: q_j = u_j^2 / sum u^2 with free u_j > 0 (the
+            # square keeps sqrt(q_j), which half-step tempering needs, rational in the atoms)
+            lu = [z3.Real(f"lu_{j}") for j in range(k)]
+            S = z3.Sum([sx.term(sx.exp(sx.asarray(2 * t))) for t in lu])
+            self.lq = [2 * t - core.sx_log(S) for t in lu]
+            self.lu = lu
+            self.param_q = True
         self.n_ll_points = 0
 
     def index_of(self, x):
@@ -214,16 +228,18 @@ class C01(Check):
 
     def configs(self, tier):
         out = [
-            {"name": "is-N2", "kind": "is", "N": 2, "k": 2, "D": 1, "timeout_ms": 120000},
-            {"name": "smc-fixed1-N2-identity", "kind": "smc", "n_steps": 1, "N": 2, "k": 2, "D": 1, "lazy": False, "timeout_ms": 300000},
-            {"name": "smc-fixed2-N2-identity", "kind": "smc", "n_steps": 2, "N": 2, "k": 2, "D": 2, "lazy": False, "timeout_ms": 300000},
-            {"name": "smc-fixed2-N2-lazy", "kind": "smc", "n_steps": 2, "N": 2, "k": 2, "D": 2, "lazy": True, "measure": False, "timeout_ms": 600000},
+            {"name": "is-N2", "kind": "is", "N": 2, "k": 2, "D": 1, "uniform_q": "param", "timeout_ms": 120000},
+            {"name": "is-N2-constrained-q", "kind": "is", "N": 2, "k": 2, "D": 1, "timeout_ms": 120000},
+            {"name": "smc-fixed1-N2-identity", "kind": "smc", "n_steps": 1, "N": 2, "k": 2, "D": 1, "lazy": False, "uniform_q": "param", "timeout_ms": 300000},
+            {"name": "smc-fixed2-N2-identity", "kind": "smc", "n_steps": 2, "N": 2, "k": 2, "D": 2, "lazy": False, "uniform_q": "param", "timeout_ms": 300000},
+            {"name": "smc-fixed2-N2-lazy", "kind": "smc", "n_steps": 2, "N": 2, "k": 2, "D": 2, "lazy": True, "measure": False, "uniform_q": "param", "flat_prior": False, "timeout_ms": 600000},
         ]
         if tier == "thorough":
             out += [
-                {"name": "is-N3", "kind": "is", "N": 3, "k": 2, "D": 1, "timeout_ms": 300000},
-                {"name": "is-N2-k3", "kind": "is", "N": 2, "k": 3, "D": 1, "timeout_ms": 300000},
-                {"name": "smc-fixed1-N2-lazy", "kind": "smc", "n_steps": 1, "N": 2, "k": 2, "D": 1, "lazy": True, "timeout_ms": 600000},
+                {"name": "is-N3", "kind": "is", "N": 3, "k": 2, "D": 1, "uniform_q": "param", "timeout_ms": 300000},
+                {"name": "is-N2-k3", "kind": "is", "N": 2, "k": 3, "D": 1, "uniform_q": "param", "timeout_ms": 300000},
+                {"name": "smc-fixed1-N2-lazy", "kind": "smc", "n_steps": 1, "N": 2, "k": 2, "D": 1, "lazy": True, "uniform_q": "param", "timeout_ms": 600000},
+                {"name": "smc-fixed2-N2-identity-constrained-q", "kind": "smc", "n_steps": 2, "N": 2, "k": 2, "D": 2, "lazy": False, "timeout_ms": 600000},
             ]
         return out
 
@@ -235,9 +251,10 @@ class C01(Check):
         return self.h_is(cfg) if cfg["kind"] == "is" else self.h_smc(cfg)
 
     def _model(self, ctx, cfg):
-        m = FiniteModel(ctx, cfg["k"])
+        m = FiniteModel(ctx, cfg["k"], uniform_q=cfg.get("uniform_q") or False, flat_prior=bool(cfg.get("flat_prior")))
         eq = [sx.term(sx.exp(sx.asarray(t))) for t in m.lq]
-        ctx.add_assume(z3.Sum(eq) == 1)
+        if not m.uniform_q:
+            ctx.add_assume(z3.Sum(eq) == 1)
         Z = z3.Sum([sx.term(sx.exp(sx.asarray(a + b))) for a, b in zip(m.ll, m.lp)])
         gam = [sx.term(sx.exp(sx.asarray(a + b))) for a, b in zip(m.ll, m.lp)]
         return m, eq, Z, gam
@@ -374,8 +391,16 @@ def replay_c01(cex):
             return default
 
     ll = [val(f"ll_{j}", -0.3 * j) for j in range(k)]
-    lp = [val(f"lp_{j}", -0.2 * (k - j)) for j in range(k)]
-    lq = [val(f"lq_{j}", math.log(1.0 / k)) for j in range(k)]
+    lp = [0.0] * k if cfg.get("flat_prior") else [val(f"lp_{j}", -0.2 * (k - j)) for j in range(k)]
+    if any(f"lu_{j}" in env for j in range(k)) or cfg.get("uniform_q") == "param":
+        lu = [val(f"lu_{j}", 0.1 * j) for j in range(k)]
+        lq = [2 * u for u in lu]
+    elif cfg.get("uniform_q"):
+        lq = [math.log(1.0 / k)] * k
+    else:
+        lq = [val(f"lq_{j}", math.log(1.0 / k)) for j in range(k)]
+    if cfg.get("flat_prior"):
+        pass
     # renormalise the proposal (the model satisfies sum exp(lq) = 1 up to rounding)
     s = math.log(sum(math.exp(v) for v in lq))
     lq = [v - s for v in lq]
